@@ -158,7 +158,7 @@ class _Instr(ast.NodeTransformer):
         return out
 
     def wrap(self, e, consumer):
-        site = (self.short, self.qual(), _src(e), consumer)
+        site = (self.short, self.qual(), getattr(e, "_c06_src", None) or _src(e), consumer)
         new = ast.Call(func=ast.Name(id="__c06_it__", ctx=ast.Load()), args=[e, ast.Constant(value=site)], keywords=[])
         return ast.copy_location(new, e)
 
@@ -216,6 +216,14 @@ def install_instrumentation():
     class Loader(importlib.machinery.SourceFileLoader):
         def source_to_code(self, data, path, *, _optimize=-1):
             tree = ast.parse(data, filename=path)
+            # remember the ORIGINAL source text of every expression that may get wrapped (inner wraps must not show up
+            # in the site description of an outer one)
+            for n in ast.walk(tree):
+                if isinstance(n, (ast.For, ast.AsyncFor, ast.comprehension)):
+                    n.iter._c06_src = _src(n.iter)
+                elif isinstance(n, ast.Call):
+                    for a in n.args:
+                        a._c06_src = _src(a)
             p = str(path)
             short = p.split("octave_mcp/", 1)[1] if "octave_mcp/" in p else p
             tree = _Instr(short).visit(tree)
@@ -370,6 +378,20 @@ def api_call(fn, a):
             doc2, log = repair(doc, errs, fix=True, schema=sd)
             out["repaired"] = emit(doc2)
             out["repairs"] = [e.to_dict() for e in log.repairs]
+        return out
+    if fn == "validate_inline":
+        # schema given as text (arbitrary POLICY / FIELDS / targets incl. multi-target broadcast), not by name
+        sd = extract_schema_from_document(parse(a["schema_content"]))
+        doc = parse(content)
+        v = Validator(schema=None)
+        errs = v.validate(doc, strict=bool(a.get("strict")), section_schemas={sd.name: sd})
+        out = {"schema": sd.name, "errors": [[e.code, e.message, e.field_path, e.severity] for e in errs], "routing": v.routing_log.to_dict()}
+        if a.get("fix"):
+            doc2, log = repair(doc, errs, fix=True, schema=sd)
+            out["repaired"] = emit(doc2)
+            out["repairs"] = [e.to_dict() for e in log.repairs]
+        if a.get("gbnf"):
+            out["grammar"] = GBNFCompiler().compile_schema(sd, include_envelope=True)
         return out
     if fn == "schema_extract":
         sd = extract_schema_from_document(parse(content))
